@@ -162,7 +162,7 @@ class C01(Prop):
         maxlen = 4 if tier == 'quick' else 5
         for g in dedup(grammars):
             kind = 'str' if n % 2 == 0 else 'slice'
-            lines.append(case_line(f'g{n}', g, inputs_all(maxlen if gen.size(g) <= 3 else 4, gen.C01_ALPHA), kind=kind))
+            lines.append(case_line(f'g{n}', g, inputs_all(maxlen if gen.size(g) <= 3 else 4, gen.C01_ALPHA) + ' ' + inputs_all(2, [gen.A, gen.THAI]), kind=kind))
             n += 1
         return lines
 
@@ -191,7 +191,7 @@ def stream_items(tier, seed, want):
     by = gen.enum_by_size(3, gen.C01_LEAVES, gen.C01_UNARIES, gen.C01_BINARIES, gen.C01_TERNARIES)
     small = [g for s in (1, 2) for g in by[s]]
     c01 = [g for s in sorted(by) for g in by[s]]
-    inp01 = inputs_all(4, [gen.A, gen.B, gen.EA]) + ' ' + inputs_all(2, [gen.A, gen.CLEF])
+    inp01 = inputs_all(4, [gen.A, gen.B, gen.EA]) + ' ' + inputs_all(2, [gen.A, gen.CLEF, gen.THAI])
     if 'c01' in want:
         for g in c01:
             add(g, inp01)
@@ -588,6 +588,22 @@ class C18(SpecProp):
             'with_state scopes; observation = every observed (count, hash) in the output and the final state of parse_with_state')
     level_text = ('refinement theorem threads the inspector: every observation equals the inspector fed the tokens consumed on the '
                   'surviving path; with_state starts fresh and leaves the outer inspector untouched; real inspector compared')
+    bins = ['h_str_rich', 'h_slice_rich', 'h_text']
+
+    def custom_run(self, lines, tier, seed, jobs):
+        import vcheck
+        tot, fails = vcheck.run_cases(self.name, lines, jobs=jobs, timeout=900 if tier == 'quick' else 3600)
+        # the text parsers (newline's peek/skip path, padded's skip_while, keyword's try_map) under a counting inspector
+        t = C14()
+        t.insp_only = True
+        t.name = 'C18'
+        tl = [l for l in t.cases('quick', seed) if l.split()[3] in ('newline', 'pad_int', 'pad_aident', 'ws', 'akw', 'int')]
+        t2, f2 = t.custom_run(tl, tier, seed, jobs)
+        tot['pairs'] += t2['pairs']; tot['pred_fail'] += t2['pred_fail']; tot['nontrivial'] += t2['nontrivial']
+        tot['outcomes']['text:ok'] = t2['outcomes'].get('ok', 0); tot['outcomes']['text:none'] = t2['outcomes'].get('none', 0)
+        if t2['crash']:
+            tot['crash'] = t2['crash']
+        return tot, fails + f2
 
 
 
@@ -853,7 +869,7 @@ class C20(Prop):
         rng.shuffle(items)
         items = items[:9000 if tier == 'quick' else 60000]
         lines = []
-        pool = [0x61, 0x62, 0xe9, 0x301, 0x1D11E, 0x10FFFF, 0xD7FF, 0xE000, 0x0, 0x200D, 0xFEFF, 0x1F600, 0x20, 0x0A, 0x0D, 0x2C]
+        pool = [0x61, 0x62, 0xe9, 0x301, 0x1D11E, 0x10FFFF, 0xD7FF, 0xE000, 0x0, 0x200D, 0xFEFF, 0x1F600, 0x20, 0x0A, 0x0D, 0x2C, gen.THAI] + gen.UTF8_EDGES
         for n, (g, inputs, kw) in enumerate(items):
             kw = dict(kw)
             kw.pop('prio', None)
@@ -1258,8 +1274,8 @@ class C13(Prop):
 # C14: text parsers
 
 T_ALPHA = [48, 49, 55, 97, 90, 95, 32, 13, 10, 233, 45, 44]      # 0 1 7 a Z _ space CR LF e-acute - ,
-T_UNI = [0x0B, 0x0C, 0x09, 0x85, 0xA0, 0x1680, 0x2028, 0x2029, 0x3000, 0x3B1, 0x4E2D, 0x301, 0xB7, 0x660, 0xAA, 0xB5, 0xC3, 0xA9, 0xD7, 0x1D11E]
-XID_START = {0xAA, 0xB5, 0xBA, 0xC3, 0xE9, 0x3B1, 0x4E2D}
+T_UNI = [0x0B, 0x0C, 0x09, 0x85, 0xA0, 0x1680, 0x2028, 0x2029, 0x3000, 0x3B1, 0x4E2D, 0x301, 0xB7, 0x660, 0xAA, 0xB5, 0xC3, 0xA9, 0xD7, 0x1D11E, 0x0E01]
+XID_START = {0xAA, 0xB5, 0xBA, 0xC3, 0xE9, 0x3B1, 0x4E2D, 0x0E01}
 XID_CONT_ONLY = {0xB7, 0x301, 0x660}
 UNI_WS = set(range(9, 14)) | {32, 0x85, 0xA0, 0x1680, 0x2028, 0x2029, 0x202F, 0x205F, 0x3000} | set(range(0x2000, 0x200B))
 
@@ -1426,6 +1442,14 @@ class C14(Prop):
                     continue
                 oc = a.split(' ')[0]
                 tot['outcomes'][oc] = tot['outcomes'].get(oc, 0) + 1
+                # C18 inside the text parsers: the whole input was consumed, so the inspector must have been fed every token
+                a, _, fed = a.partition(' i')
+                if fed and int(fed) != len(toks):
+                    tot['pred_fail'] += 1
+                    self.fail(tot, fails, 'pred', None, 0, f'INSPECTOR text::{pname}{params} [{inst}] on {toks}: the parse consumed {len(toks)} tokens but the inspector was fed {fed}')
+                    continue
+                if getattr(self, 'insp_only', False):
+                    continue
                 want = text_oracle(inst, pname, params, toks)
                 want_s = 'none' if want is None else 'ok %d %d %d' % want
                 obs[(cid[:-1], inst, k)] = (a, toks, pname, params)
@@ -1837,7 +1861,7 @@ class C07(Prop):
         for _ in range(300 if tier == 'quick' else 3000):
             base.append(gen.random_grammar(rng, rng.randint(3, 5), gen.C01_LEAVES, gen.C01_UNARIES, gen.C01_BINARIES, gen.C01_TERNARIES))
         kinds = ['str', 'slice', 'mapped0', 'mapped1', 'mapped3', 'stream', 'mstream1', 'mstream3']
-        inp = inputs_all(4 if tier == 'quick' else 5, [gen.A, gen.B, gen.EA]) + ' ' + inputs_all(2, [gen.A, gen.CLEF])
+        inp = inputs_all(4 if tier == 'quick' else 5, [gen.A, gen.B, gen.EA]) + ' ' + inputs_all(2, [gen.A, gen.CLEF, gen.THAI]) + ' ' + ' '.join(inputs_lit([gen.A, c, gen.B]) for c in gen.UTF8_EDGES)
         inp2 = inputs_all(5 if tier == 'quick' else 6, gen.C02_ALPHA)
         lines = []
         n = 0
